@@ -146,7 +146,14 @@ def run(chk):
                 if hf.has_kwargs() and not (len(dstar) == 1 and isinstance(dstar[0].value, ast.Name) and dstar[0].value.id == [p.name for p in hf.params if p.kind == "kwarg"][0]):
                     problems.append("**kwargs not forwarded")
                 r2.expect(not problems, "HashClient.%s -> _run_cmd(%r, key, ...) forwards *args/**kwargs" % (name, a0.value if isinstance(a0, ast.Constant) else None), "HashClient.%s:_run_cmd-forwarding" % name, "HashClient.%s: %s" % (name, "; ".join(problems)), fn=hf, node=c)
-    r2.floor("_run_cmd call sites in HashClient", n_rc, 15)
+    # every single-key operation goes through _run_cmd (the many-key ones are decided end to end by C12.R3/R4, included
+    # in R5): one without such a call forwards in a way this rule does not follow
+    single = [name for name, hf in sorted(hashc.methods.items()) if not name.startswith("_") and [p_.name for p_ in hf.pos_params()[:1]] == ["key"] and name in prog.cls("Client").methods]
+    for name in single:
+        if not any(isinstance(c, ast.Call) and call_name(c) == "self._run_cmd" for c in walk_no_nested(hashc.methods[name].node)):
+            r2.undecided("HashClient.%s:_run_cmd-forwarding" % name, "HashClient.%s does not hand its arguments to _run_cmd; how it forwards them is not followed by this rule" % name)
+    r2.floor("single-key operations of HashClient", len(single), 14)
+    r2.floor("_run_cmd call sites in HashClient", n_rc, 14)
     _check_run_cmd(prog, r2)
 
     # ------------------------------------------------------------------ R3 configuration propagation
